@@ -20,6 +20,7 @@ EXPLANATION = (
     "replacement of an existing file by a link, plus the roll-back clear() of _DocProxy; _DocProxy offers no item deletion."
     " (h) The per-job and per-file loops of the synchronisation carry nothing between iterations; sync_jobs never modifies the caller's exclude list; a clone-side exclude filter protects the reserved file names."
     ' (k) _FileModifyProxy.copy ends on every normal path of a real run in a copy primitive / link creation (no skip condition of its own), and a real copytree is shutil.copytree, not an os.walk re-implementation.'
+    ' (l) the selection of `signac sync` is not computed in the destination project and an empty selection selects nothing (C13-l).'
 )
 UNDECIDED = "The superset / byte-identity post-condition and idempotence of a repeated sync are behavioural and not decided."
 
